@@ -5,6 +5,9 @@ HERE = os.path.dirname(os.path.dirname(os.path.abspath(__file__)))
 sys.path.insert(0, HERE)
 from vlib import registry
 
+import subprocess
+HOOK_COMMITS = [l.split()[0] for l in subprocess.run(["git", "-C", "/repo", "log", "--format=%h %s"], capture_output=True, text=True).stdout.splitlines()
+                if l.split(" ", 1)[1].startswith("verif hook:")][::-1]
 NA = registry.NOT_APPLICABLE
 props = [json.loads(l)["id"] for l in open(os.path.join(HERE, "properties.jsonl"))]
 checks = []
@@ -36,10 +39,10 @@ m = {
     "version": 1,
     "setup_cmd": "./setup.sh",
     "hooks": {
-        "guard": "msi_verif",
-        "enable": "none needed: the harness crate /verif/kani includes /repo/src/internal by #[path] and sees pub(crate) items; no source hooks exist (RUSTFLAGS='--cfg msi_verif' is reserved and unused)",
+        "guard": "msi_verif (cargo feature of the msi crate, off by default)",
+        "enable": "the harness crate /verif/kani includes /repo/src/internal by #[path] and defines a cargo feature of the same name (msi_verif, on by default there), so #[cfg(feature = \"msi_verif\")] items in the included sources are compiled in; /repo itself is never built with the feature by the checks",
         "baseline_off_cmd": "cd /repo && cargo test --workspace --no-fail-fast --offline",
-        "source_commits": [],
+        "source_commits": HOOK_COMMITS,
         "add_only": True,
     },
     "engines": [
